@@ -49,6 +49,17 @@ CHECKS = {
           "O4 (constants/layouts) is decided by direct comparison, not by the solver. Conversation-level conformance is exercised under the "
           "reference-peer harnesses of C01/C07/C08."),
     technique="differential symbolic execution (real codec vs reference codec over ropes) + z3; replay on CPython"),
+ "C15": dict(
+    category="other", design_ref="DESIGN.md section 4 (C15)",
+    text=("Symbolic execution of the real AsyncResult, lib.Timeout, Connection.sync_request/async_request and helpers.timed with the clock as a "
+          "solver variable (linear real arithmetic): every history of <=3 (quick)/4 (thorough) events over {advance, reply arrives, add_callback, "
+          "ready?, expired?, error?, wait, value}, any timeout (none/negative/zero/positive), any arrival delay and every outcome of each serve() "
+          "call (reply/unrelated traffic/idle/busy) is compared clause by clause with a reference state machine written from the property text; "
+          "z3 finds boundary coincidences (reply exactly at the expiry, zero timeouts) that second-scale wall-clock tests cannot."),
+    note=("Trusted: z3, interpreter (validated against CPython on 8 AsyncResult scenarios every run), the contract of Connection.serve(timeout) "
+          "used as environment (returns on arrival or exactly at the timeout unless busy), real arithmetic for clock values. Negative timeouts: "
+          "only finality/callback clauses asserted. Bounds: history length, <=3 serve() calls per wait (cut paths counted)."),
+    technique="symbolic execution of the Python AST with a symbolic clock + z3 (LRA); counterexample histories replayed on CPython with a virtual clock"),
 }
 
 NOT_YET = {}
